@@ -44,6 +44,9 @@ type verifC06MainStub struct {
 	sync.Mutex
 	c       verifC06MainCase
 	events  []string // "poll" / "answer", in arrival order
+	sids    []string             // session id of the k-th poll
+	offered []time.Time          // when the k-th poll was handed its offer
+	answers map[string]time.Time // session ids for which an answer was POSTed
 	polls   int
 	pattern string
 	hasPat  bool
@@ -66,6 +69,15 @@ func (s *verifC06MainStub) ServeHTTP(w http.ResponseWriter, r *http.Request) {
 		k := s.polls
 		s.polls++
 		s.events = append(s.events, "poll")
+		{
+			var m map[string]interface{}
+			sid := ""
+			if json.Unmarshal(body, &m) == nil {
+				sid, _ = m["Sid"].(string)
+			}
+			s.sids = append(s.sids, sid)
+			s.offered = append(s.offered, time.Now())
+		}
 		if k == 0 {
 			var m map[string]interface{}
 			if json.Unmarshal(body, &m) == nil {
@@ -84,6 +96,17 @@ func (s *verifC06MainStub) ServeHTTP(w http.ResponseWriter, r *http.Request) {
 		w.Write([]byte(`{"Status":"no match"}`))
 	case strings.HasSuffix(r.URL.Path, "answer"):
 		s.events = append(s.events, "answer")
+		{
+			var m map[string]interface{}
+			if json.Unmarshal(body, &m) == nil {
+				if sid, ok := m["Sid"].(string); ok {
+					if s.answers == nil {
+						s.answers = map[string]time.Time{}
+					}
+					s.answers[sid] = time.Now()
+				}
+			}
+		}
 		w.Write([]byte(`{"Status":"client gone"}`))
 	default:
 		s.events = append(s.events, "other:"+r.URL.Path)
@@ -91,28 +114,25 @@ func (s *verifC06MainStub) ServeHTTP(w http.ResponseWriter, r *http.Request) {
 	}
 }
 
+// verifC06MainGrace is how long a session may take to POST its answer before it counts as refused. A session is
+// identified by the session id the proxy put into its poll and repeats in its answer, so an answer that arrives after
+// the proxy's next poll (a busy machine) still counts for the right session.
+const verifC06MainGrace = 25 * time.Second
+
 // results of the sessions decided so far, and whether all of them are
 func (s *verifC06MainStub) results() ([]string, bool) {
 	s.Lock()
 	defer s.Unlock()
 	var res []string
-	k := 0
-	for i, e := range s.events {
-		if e != "poll" {
+	for k := 0; k < len(s.c.Offers) && k < len(s.sids); k++ {
+		if _, ok := s.answers[s.sids[k]]; ok && s.sids[k] != "" {
+			res = append(res, "proceed")
 			continue
 		}
-		if k >= len(s.c.Offers) {
-			break
-		}
-		k++
-		if i+1 >= len(s.events) {
+		if time.Since(s.offered[k]) < verifC06MainGrace {
 			return res, false // the session of this poll is still undecided
 		}
-		if s.events[i+1] == "answer" {
-			res = append(res, "proceed")
-		} else {
-			res = append(res, "refuse")
-		}
+		res = append(res, "refuse")
 	}
 	return res, len(res) == len(s.c.Offers) && s.polls > 0 // (no offers: the first poll shows that main() got as far as polling)
 }
